@@ -23,6 +23,8 @@ SPEC = {
         {'pkg': 'commit/tokenprice', 'pkgname': 'tokenprice',
          'src': 'harness/commit/tokenprice/c14_test.go', 'test': 'TestVerif_C14_tp', 'fakes': True,
          'sinks': {'C14_tp': 'tp_judge'}, 'n': {'quick': 250, 'thorough': 20000}},
+        {'pkg': 'commit', 'src': 'harness/commit/c14_test.go', 'test': 'TestVerif_C14_plugin', 'fakes': True,
+         'sinks': {'C14_pplug': 'pplug_judge'}, 'n': {'quick': 150, 'thorough': 8000}},
     ],
     'known': {},
     'rule': 'dev: operand magnitudes 0..2^260, x1 placed at the deviation threshold of x2 (ppb-1/ppb/ppb+1, +-1 unit), zeros, equal, '
@@ -31,7 +33,7 @@ SPEC = {
             '(feed chain for tp) with f in 1..2, observation counts per key drawn from {2f, 2f+1, 2f+2, all}, honest spread 0 / 0.1% / 20% with up to f outliers '
             '(1, 2, 2^130, 2^256), stored values at the deviation threshold -1/0/+1 ppb and 0 / tiny, stored timestamps at now-freq -1/0/+1 ns, '
             'keys without agreed f (F08 class), null big integers (F09 class) and other malformed observations; every observation goes through '
-            'ValidateObservation, the accepted ones through Outcome. non-trivial: dev both non-zero and different; cf/tp at least one price reported; '
+            'ValidateObservation, the accepted ones through Outcome; pplug: the same shapes JSON-encoded through commit.Plugin with fChain agreement counts at 2F / 2F+1. non-trivial: dev both non-zero and different; cf/tp at least one price reported; '
             'distinct by full input',
     'trusted': ['home-chain role lookups answered by the scripted fake vHomeChain',
                 'big.Int arithmetic (Mul, Div = Euclidean, Lsh, Rsh, Or, And, Cmp) behaves as documented; Z in the model',
@@ -47,7 +49,8 @@ SPEC = {
                   '112-bit shift; a token / gas price is selected iff no stored value, heartbeat elapsed or deviation, output strictly sorted by key; validated '
                   'observations contain no null big integer. Correspondence: Deviates, CalculateUsdPerUnitGas, To/FromPackedFee, Median and both processors '
                   '(ValidateObservation + Outcome) run against the model and a direct restatement of the property every run',
-    'level_note': 'Trusted: Coq kernel, hand-written model, differential harness. No axioms. commit.Plugin.Reports wiring not exercised here.',
+    'level_note': 'Trusted: Coq kernel, hand-written model, differential harness. No axioms. Plugin level: commit.Plugin (NewPlugin, N in {4,7}, F in {1,2}, f(source) != f(dest)) '
+                  'ValidateObservation + Outcome + Reports: the report PriceUpdates must equal the outcome prices (order, nothing lost or added).',
     'modelled': 'mathslib.Deviates / CalculateUsdPerUnitGas, chainfee To/FromPackedFee / ChainFeeUpdateAggregator / ValidateObservation / '
                 'getConsensusObservation / Outcome / getGasPricesToUpdate, tokenprice ValidateObservation / getConsensusObservation / '
                 'selectTokensForUpdate / Outcome, consensus.Median / GetConsensusMapAggregator / TimestampedBigAggregator',
